@@ -326,3 +326,33 @@ def memory_leak_respawn(mw=1, init=None, form="await"):
     elif form == "nowait":
         ops += [shutdown(False), WAIT]
     return P(f"memleak-w{mw}-i{init}-{form}", pool(max_workers=mw, timeout=None, init=init), ops)
+
+
+def respawn_race(mw=2, timeout=0.05):
+    """A worker idles out while another is busy; a submit lands while the manager handles the
+    exit: both may top the pool up (the manager's re-spawn path vs submit)."""
+    return P(f"respawn-race-w{mw}", pool(max_workers=mw, timeout=timeout),
+             [NEW, sub("g", "gate"), ["sleep", 0.2], sub("a", "ok", 1), sub("b", "ok", 2),
+              ["release", "g"], WAIT, shutdown(True)])
+
+
+def resubmit_from_callback(kind="bad_arg", mw=1):
+    """A done-callback that re-enters the executor (retry on failure / follow-up on success)."""
+    return P(f"resubmit-cb-{kind}-w{mw}", pool(max_workers=mw),
+             [NEW, sub("x", kind), ["callback", "x", "resubmit"], sub("y", "ok", 2), WAIT,
+              ["probe"], shutdown(True)])
+
+
+def cancel_run(ncancel=6, mw=1):
+    """A long run of consecutive cancelled backlog futures followed by a live one."""
+    ops = [NEW] + [sub(f"r{i}", "ok", i) for i in range(4)]
+    ops += [sub(f"x{i}", "ok", i) for i in range(ncancel)] + [sub("h", "ok", 9)]
+    ops += [["cancel", f"x{i}"] for i in range(ncancel)] + [WAIT, shutdown(True)]
+    return P(f"cancel-run{ncancel}-w{mw}", pool(max_workers=mw), ops)
+
+
+def idle_then_die(mw=1, timeout=0.05):
+    """All workers idle out; the next task is re-spawned for and takes its worker down."""
+    return P(f"idle-then-die-w{mw}", pool(max_workers=mw, timeout=timeout),
+             [NEW, sub("a", "ok", 1), ["result", "a"], ["sleep", 0.2], sub("d", "die"), WAIT,
+              ["submit_expect", "z"], shutdown(True)])
